@@ -1,9 +1,9 @@
 package socks
 
 import (
-	"bufio"
 	"encoding/binary"
 	"errors"
+	"io"
 	"net"
 	"fmt"
 
@@ -67,10 +67,27 @@ type NegotiationHeader struct {
 	Methods  []byte
 }
 
+// exactReader reads exactly what is asked for and nothing more: a header may arrive in any
+// number of TCP segments, and nothing that follows it may be swallowed by a read-ahead buffer
+// (the handshake replies and the relayed data are read from the connection by other readers).
+type exactReader struct {
+	conn net.Conn
+}
+
+func (r exactReader) ReadByte() (byte, error) {
+	var b [1]byte
+	_, err := io.ReadFull(r.conn, b[:])
+	return b[0], err
+}
+
+func (r exactReader) Read(p []byte) (int, error) {
+	return io.ReadFull(r.conn, p)
+}
+
 func SubNegotiationClient(conn net.Conn) (NegotiationHeader, error) {
 	var (
 		header     NegotiationHeader
-		reader     = bufio.NewReader(conn)
+		reader     = exactReader{conn}
 		err        error
 		NumMethods byte
 	)
@@ -114,7 +131,7 @@ func SubNegotiationClient(conn net.Conn) (NegotiationHeader, error) {
 func ReadSocksHeader(conn net.Conn) (SocksHeader, error) {
 	var (
 		header SocksHeader
-		reader = bufio.NewReader(conn)
+		reader = exactReader{conn}
 		err    error
 	)
 
